@@ -78,6 +78,7 @@ public:
      * @param TheMatchPattern The match pattern
      * @param thePatternString the pattern string
      * @param thePriority The priority for the match pattern.
+     * @param theAlternative The index of the alternative of the match pattern
      *
      * @return A pointer to the new instance.
      */
@@ -88,7 +89,8 @@ public:
             const XalanDOMString&   theTargetString,
             const XPath&            theMatchPattern,
             const XalanDOMString&   thePatternString,
-            data_type::eMatchScore  thePriority);
+            data_type::eMatchScore  thePriority,
+            data_type::size_type    theAlternative);
 
     /**
      * Determine if an object is owned by the allocator...
